@@ -190,8 +190,10 @@ def main(tier, seed):
     rng.shuffle(cases)
     nb = 16 if q else 64
     batches = [{"cases": cases[i::nb]} for i in range(nb)]
-    for i in range(3 if q else 16):
-        batches.append({"real": [{"kind": "app", "seed": seed * 389 + i * 23 + j, "judge": "callers"} for j in range(1 if q else 4)]})
+    for i in range(3 if q else 40):
+        # one execution per worker process: Bromelia.run() leaves a Manager and a worker process behind that a second run in the
+        # same interpreter cannot share
+        batches.append({"real": [{"kind": "app", "seed": seed * 389 + i * 23, "judge": "callers"}]})
     acc = harness.run_workers("checks.c14_waiting_sender", "run_batch", batches, 3000)
     return harness.finish(PROP, tier, seed, "exploration", acc, RULE,
                           ["in-process workers (fake manager); the multi-process deployment of Bromelia.run() is out of reach",
